@@ -21,7 +21,7 @@ from zipfile import ZIP_DEFLATED, ZipFile
 from ._search_indexer import _SearchIndexer
 from ._utility import _dotted_dict_to_nested_dicts, _mkdir_p
 from .errors import DestinationExistsError, StatepointParsingError
-from .job import Job
+from .job import Job, calc_id
 
 logger = logging.getLogger(__name__)
 
@@ -139,7 +139,7 @@ class _AutoPathFormatter(Formatter):
             Formatted string.
 
         """
-        from .job import Job
+        from .job import Job, calc_id
 
         if isinstance(value, Job):
             return self.paths(value, format_spec)
@@ -699,7 +699,13 @@ def _with_consistency_check(schema_function, read_statepoint_file):
         else:
             sp = schema_function(path)
             sp_default = read_statepoint_file(path)
-            if sp and sp_default and sp_default != sp:
+            # Compare the job ids as well: mappings that differ only in the type
+            # of a value (1, 1.0 and True) compare equal but denote different jobs.
+            if (
+                sp
+                and sp_default
+                and (sp_default != sp or calc_id(sp_default) != calc_id(sp))
+            ):
                 raise StatepointParsingError(
                     "Identified state point conflicts with state point in job state point file!"
                 )
